@@ -14,16 +14,28 @@ RULE = ("random MJCF models straddling MJX's feature lattice (tree of 2-5 bodies
         "actuators over joint/jointinparent/ball/tendon/site transmissions with all supported dyn/gain/bias types; "
         "connect/weld/joint/tendon equalities, mocap welds; 30 sensor kinds with cutoffs and reference frames; gravcomp, "
         "fluid; Euler/RK4/implicitfast x pyramidal/elliptic x Newton/CG x dense/sparse/auto x random disable flags; "
-        "plus a 'gate' profile injecting one unsupported feature) x random states/controls/applied forces. "
+        "plus a 'gate' profile injecting one unsupported feature) x random states/controls/applied forces; plus a 'capcap' "
+        "profile: free capsules placed pairwise in penetrating CLIPPED segment-segment configurations (closest points of the "
+        "axis lines outside a segment: cap-side, cap-cap, non-crossing). "
         "distinct = (profile, integrator, cone, solver, sorted feature-tag set bucket, #active contacts bucket, "
         "#constraint rows bucket); non-trivial = put_model accepted it and it has nv>0")
 ASSUMPTIONS = [
     "VERDICT oracle = the C engine of the installed mujoco 3.13.0 wheel on the identical MjModel (MJX can only ingest the "
-    "installed binding's MjModel; MJX's own tests do the same). The repository is 3.12.1: a field where the repo's C code "
-    "agrees with MJX and differs from the wheel is version skew: every unexplained difference is re-evaluated on the tree's own "
-    "C build (drv.Lib('rel'), same XML and state); if that build reproduces MJX's value the case is counted as "
-    "reference_skew_wheel_vs_tree[field] and not judged (observed: 3.13.0 clamps ctrl in the implicitfast actuator "
-    "velocity derivative, the tree does not)",
+    "installed binding's MjModel; MJX's own tests do the same). The repository is 3.12.1 and the statement names 'the C engine "
+    "built from this tree': every unexplained difference on a field the ctypes driver exposes by name (mjData arrays, next "
+    "state, sensordata slices) is re-evaluated on the tree's own C build (drv.Lib('rel'), same XML and state). It is counted as "
+    "reference_skew_wheel_vs_tree[field] and not judged ONLY IF (a) MJX agrees with the tree's value at the field's own "
+    "tolerance (the tolerance that raised the difference) AND (b) the tree's value differs from the wheel's by more than that "
+    "tolerance; in every other case (tree == wheel, tree unavailable, MJX differs from both) the difference is judged against "
+    "the wheel. Counters tree_build_* record how many differences were decided this way (observed skew: 3.13.0 clamps ctrl in "
+    "the implicitfast actuator velocity derivative, the tree does not)",
+    "a difference is reported under the signature of a known finding only when that finding's mechanism is CONFIRMED on the "
+    "case at hand: either structurally on the differing value itself (e.g. MJX value exactly zero / equal to the C formula "
+    "without the missing term / equal to the un-clipped value) or by a counterfactual re-run in which exactly that mechanism is "
+    "neutralised (C engine with the feature switched off or with the term removed in a staged pipeline that is first validated "
+    "to reproduce mj_forward/mj_step bit-for-bit-ish, <=1e-9; or MJX fed the compensating input) and the difference must then "
+    "vanish at the field's own tolerance; scopes are explicit field / row-type / mjtSensor lists. Anything not confirmed keeps its "
+    "generic field signature and is a violation",
     "float64 (jax_enable_x64) relative tolerance 1e-6 of max(1,|field|_inf) for closed-form quantities; 1e-4 for quantities "
     "that depend on the iterative constraint solver (both solvers run to tolerance 1e-12, <=100/400 iterations); the "
     "float32 subsample uses 2e-3 / 2e-2",
@@ -193,6 +205,20 @@ def _compare_contacts(R, m, dc, dxf, tol, P, sig_prefix):
     return (not problems), problems
 
 
+def _efc_row_meta(mj, m, dc, i):
+    """Identity of C constraint row i: type, owning object, and (for elliptic contacts) whether it is a friction row."""
+    T = mj.mjtConstraint
+    t, oid = int(dc.efc_type[i]), int(dc.efc_id[i])
+    meta = {"type": t, "efc_id": oid}
+    if t == int(T.mjCNSTR_EQUALITY):
+        meta["eq_type"] = int(m.eq_type[oid])
+    if t in (int(T.mjCNSTR_CONTACT_ELLIPTIC), int(T.mjCNSTR_CONTACT_PYRAMIDAL), int(T.mjCNSTR_CONTACT_FRICTIONLESS)):
+        con = dc.contact[oid]
+        meta["includemargin"] = float(con.includemargin)
+        meta["friction_row"] = bool(t == int(T.mjCNSTR_CONTACT_ELLIPTIC) and i != int(con.efc_address))
+    return meta
+
+
 def _compare_efc(R, m, dc, dxf, tol, tol_s, P):
     mj = R.mujoco
     problems = []
@@ -235,24 +261,25 @@ def _compare_efc(R, m, dc, dxf, tol, tol_s, P):
             problems.append(("efc-row-unmatched", {"c_row": i, "type": int(dc.efc_type[i])}))
             continue
         used.add(bj)
+        meta = _efc_row_meta(mj, m, dc, i)
+        meta.update({"c_row": i, "mjx_row": int(bj), "c_pm": float(cv["efc_pos"][i] - cv["efc_margin"][i]),
+                     "mjx_pm": float(xv["efc_pos"][bj] - xv["efc_margin"][bj])})
         e = _relerr(xJ[bj], J[i])
         P.note_max("relerr_efc_J", e)
         if e > tol:
-            problems.append(("efc_J", {"c_row": i, "mjx_row": int(bj), "type": int(dc.efc_type[i]), "relerr": e,
-                                       "c": J[i].tolist(), "mjx": xJ[bj].tolist()}))
+            problems.append(("efc_J", dict(meta, relerr=e, tol=tol, c=J[i].tolist(), mjx=xJ[bj].tolist())))
         for k in feats:
             if k in SKEW:
                 continue
             e = _relerr(xv[k][bj], cv[k][i])
             P.note_max("relerr_" + k, e)
             if e > tol:
-                problems.append((k, {"c_row": i, "mjx_row": int(bj), "type": int(dc.efc_type[i]), "relerr": e,
-                                     "c": float(cv[k][i]), "mjx": float(xv[k][bj])}))
+                problems.append((k, dict(meta, relerr=e, tol=tol, c=float(cv[k][i]), mjx=float(xv[k][bj]))))
         e = abs(xforce[bj] - dc.efc_force[i]) / max(1.0, np.abs(dc.efc_force).max())
         P.note_max("relerr_efc_force", e)
         if e > tol_s:
-            problems.append(("efc_force", {"c_row": i, "mjx_row": int(bj), "type": int(dc.efc_type[i]),
-                                           "relerr": float(e), "c": float(dc.efc_force[i]), "mjx": float(xforce[bj])}))
+            problems.append(("efc_force", dict(meta, relerr=float(e), tol=tol_s, c=float(dc.efc_force[i]),
+                                               mjx=float(xforce[bj]))))
     return problems
 
 
@@ -265,10 +292,97 @@ def _sensor_stage_map(R, m):
     return out
 
 
+def _compare_state(R, m, mx, dcf, dcs, dxf, dxs, x64, P, smap, integ):
+    """All field comparisons of one state: C forward data `dcf` / stepped `dcs` against MJX `dxf` / `dxs`.
+    Returns (problems, info); each problem is (name, detail) and detail["tol"] is the tolerance that raised it."""
+    mj = R.mujoco
+    tol, tol_s = _tols(x64)
+    _, fullm = _fs(R)
+    problems = []
+
+    def cmp(name, a, b, t):
+        if name in SKEW:
+            return
+        e = _relerr(a, b)
+        P.note_max("relerr_" + name, e)
+        if e > t:
+            problems.append((name, {"relerr": e, "tol": t, "c": np.asarray(b).tolist(), "mjx": np.asarray(a).tolist()}))
+
+    for f in POS_FIELDS + VEL_FIELDS + ACT_FIELDS:
+        cmp(f, getattr(dxf, f), getattr(dcf, f), tol)
+    for f in IMPL_FIELDS:
+        cmp(f, getattr(dxf._impl, f), getattr(dcf, f), tol)
+    # inertia matrix, actuator moment, tendon Jacobian (dense on the MJX side)
+    Mc = np.zeros((m.nv, m.nv))
+    mj.mj_fullM(m, dcf, Mc)
+    cmp("M", fullm(mx, dxf), Mc, tol)
+    if m.nu:
+        mom = np.zeros((m.nu, m.nv))
+        mj.mju_sparse2dense(mom, dcf.actuator_moment, dcf.moment_rownnz, dcf.moment_rowadr, dcf.moment_colind)
+        cmp("actuator_moment", dxf._impl.actuator_moment, mom, tol)
+    if m.ntendon:
+        tj = np.zeros((m.ntendon, m.nv))
+        try:
+            mj.mju_sparse2dense(tj, dcf.ten_J, m.ten_J_rownnz, m.ten_J_rowadr, m.ten_J_colind)
+        except Exception:
+            tj = np.array(dcf.ten_J).reshape(m.ntendon, m.nv)
+        cmp("ten_J", dxf._impl.ten_J, tj, tol)
+    ok_c, pc = _compare_contacts(R, m, dcf, dxf, tol, P, "")
+    for name, det in pc:
+        det.setdefault("tol", tol)
+    problems += pc
+    contact_dependent_ok = ok_c is not None
+    nact = sum(1 for i in range(dcf.ncon) if dcf.contact.dist[i] < dcf.contact.includemargin[i])
+    if nact:
+        tol_s = max(tol_s, TOL_CONTACT_DOWNSTREAM)
+    if contact_dependent_ok and ok_c:
+        problems += _compare_efc(R, m, dcf, dxf, max(tol, TOL_CONTACT_GEOM) if nact else tol, tol_s, P)
+    xsens = np.asarray(dxf.sensordata)
+
+    def sens(i, nm, stage, adr, dim, t):
+        e = _relerr(xsens[adr:adr + dim], dcf.sensordata[adr:adr + dim])
+        P.note_max("relerr_sensor_" + nm, e)
+        if ("sensor_" + nm) not in SKEW and e > t:
+            problems.append(("sensor_" + nm, {"relerr": e, "tol": t, "sensor": i, "stype": int(m.sensor_type[i]),
+                                              "stage": stage, "adr": adr, "dim": dim, "nefc_mjx": int(dxf._impl.nefc),
+                                              "c": dcf.sensordata[adr:adr + dim].tolist(),
+                                              "mjx": xsens[adr:adr + dim].tolist()}))
+
+    if contact_dependent_ok:
+        for f in SOLVER_FIELDS:
+            cmp(f, getattr(dxf, f), getattr(dcf, f), tol_s)
+        for i, (nm, stage, adr, dim) in smap.items():
+            sens(i, nm, stage, adr, dim, tol_s if stage == 3 or nm in ("touch", "force", "torque", "accelerometer") else tol)
+        for f in STATE_FIELDS:
+            e = _relerr(getattr(dxs, f), getattr(dcs, f))
+            P.note_max("relerr_step_%s_%s" % (f, integ[4:]), e)
+            t = tol_s if f != "time" else tol
+            if e > t:
+                problems.append(("step_%s[%s]" % (f, integ[4:]), {"relerr": e, "tol": t, "c": np.asarray(getattr(dcs, f)).tolist(),
+                                                                  "mjx": np.asarray(getattr(dxs, f)).tolist()}))
+    else:
+        for i, (nm, stage, adr, dim) in smap.items():
+            if stage < 3 and nm not in ("touch",):
+                sens(i, nm, stage, adr, dim, tol)
+    return problems, {"nact": nact, "contact_dependent_ok": contact_dependent_ok}
+
+
+def _pkey(name, det):
+    """Identity of a difference inside one state (used to ask whether it survives a counterfactual re-run)."""
+    if not isinstance(det, dict):
+        return name
+    if name.startswith("efc") and "c_row" in det:
+        return "%s@row%d" % (name, det["c_row"])
+    if name.startswith("sensor_"):
+        return "%s@%d" % (name, det["sensor"])
+    if name.startswith("contact") and "c_contact" in det:
+        return "%s@%d" % (name, det["c_contact"])
+    return name
+
+
 def check_model(R, xml, tags, states, P, x64=True, detail_base=None):
     """Runs all states of one model. `states` is a list of state dicts or None entries (-> random from rng)."""
     mj, mjx = R.mujoco, R.mjx
-    tol, tol_s0 = _tols(x64)
     try:
         m = mj.MjModel.from_xml_string(xml)
     except Exception as e:
@@ -291,9 +405,9 @@ def check_model(R, xml, tags, states, P, x64=True, detail_base=None):
     fs, fullm = _fs(R)
     integ = [t for t in tags if t.startswith("int:")][0]
     smap = _sensor_stage_map(R, m)
+    from .. import mjxrepo
     for si, st in enumerate(states):
         d = mj.MjData(m)
-        from .. import mjxrepo
         mjxrepo.set_state_dict(m, d, st)
         dx = _to_mjx_data(R, m, mx, d)
         dcf = mj.MjData(m)
@@ -323,69 +437,8 @@ def check_model(R, xml, tags, states, P, x64=True, detail_base=None):
                        "diff": {"exception": "%s: %s" % (type(e).__name__, str(e)[:300]), "where": where}})
             P.violation("mjx-raises-on-model-accepted-by-put_model:%s@%s" % (type(e).__name__, where), dd)
             return
-        problems = []
-        tol_s = tol_s0
-
-        def cmp(name, a, b, t):
-            if name in SKEW:
-                return
-            e = _relerr(a, b)
-            P.note_max("relerr_" + name, e)
-            if e > t:
-                problems.append((name, {"relerr": e, "c": np.asarray(b).tolist(), "mjx": np.asarray(a).tolist()}))
-
-        for f in POS_FIELDS + VEL_FIELDS + ACT_FIELDS:
-            cmp(f, getattr(dxf, f), getattr(dcf, f), tol)
-        for f in IMPL_FIELDS:
-            cmp(f, getattr(dxf._impl, f), getattr(dcf, f), tol)
-        # inertia matrix, actuator moment, tendon Jacobian (dense on the MJX side)
-        Mc = np.zeros((m.nv, m.nv))
-        mj.mj_fullM(m, dcf, Mc)
-        cmp("M", fullm(mx, dxf), Mc, tol)
-        if m.nu:
-            mom = np.zeros((m.nu, m.nv))
-            mj.mju_sparse2dense(mom, dcf.actuator_moment, dcf.moment_rownnz, dcf.moment_rowadr, dcf.moment_colind)
-            cmp("actuator_moment", dxf._impl.actuator_moment, mom, tol)
-        if m.ntendon:
-            tj = np.zeros((m.ntendon, m.nv))
-            try:
-                mj.mju_sparse2dense(tj, dcf.ten_J, m.ten_J_rownnz, m.ten_J_rowadr, m.ten_J_colind)
-            except Exception:
-                tj = np.array(dcf.ten_J).reshape(m.ntendon, m.nv)
-            cmp("ten_J", dxf._impl.ten_J, tj, tol)
-        ok_c, pc = _compare_contacts(R, m, dcf, dxf, tol, P, "")
-        problems += pc
-        contact_dependent_ok = ok_c is not None
-        nact = sum(1 for i in range(dcf.ncon) if dcf.contact.dist[i] < dcf.contact.includemargin[i])
-        if nact:
-            tol_s = max(tol_s, TOL_CONTACT_DOWNSTREAM)
-        if contact_dependent_ok and ok_c:
-            problems += _compare_efc(R, m, dcf, dxf, max(tol, TOL_CONTACT_GEOM) if nact else tol, tol_s, P)
-        if contact_dependent_ok:
-            for f in SOLVER_FIELDS:
-                cmp(f, getattr(dxf, f), getattr(dcf, f), tol_s)
-            for i, (nm, stage, adr, dim) in smap.items():
-                t = tol_s if stage == 3 or nm in ("touch", "force", "torque", "accelerometer") else tol
-                e = _relerr(np.asarray(dxf.sensordata)[adr:adr + dim], dcf.sensordata[adr:adr + dim])
-                P.note_max("relerr_sensor_" + nm, e)
-                if ("sensor_" + nm) not in SKEW and e > t:
-                    problems.append(("sensor_" + nm, {"relerr": e, "sensor": i, "stage": stage, "nefc_mjx": int(dxf._impl.nefc),
-                                                      "c": dcf.sensordata[adr:adr + dim].tolist(),
-                                                      "mjx": np.asarray(dxf.sensordata)[adr:adr + dim].tolist()}))
-            for f in STATE_FIELDS:
-                e = _relerr(getattr(dxs, f), getattr(dcs, f))
-                P.note_max("relerr_step_%s_%s" % (f, integ[4:]), e)
-                if e > (tol_s if f != "time" else tol):
-                    problems.append(("step_%s[%s]" % (f, integ[4:]), {"relerr": e, "c": np.asarray(getattr(dcs, f)).tolist(),
-                                                                      "mjx": np.asarray(getattr(dxs, f)).tolist()}))
-        else:
-            for i, (nm, stage, adr, dim) in smap.items():
-                if stage < 3 and nm not in ("touch",):
-                    e = _relerr(np.asarray(dxf.sensordata)[adr:adr + dim], dcf.sensordata[adr:adr + dim])
-                    if e > tol and ("sensor_" + nm) not in SKEW:
-                        problems.append(("sensor_" + nm, {"relerr": e, "sensor": i, "stage": stage,
-                                                          "c": dcf.sensordata[adr:adr + dim].tolist(),
-                                                          "mjx": np.asarray(dxf.sensordata)[adr:adr + dim].tolist()}))
+        problems, info = _compare_state(R, m, mx, dcf, dcs, dxf, dxs, x64, P, smap, integ)
+        nact = info["nact"]
         nrow = int(dcf.nefc)
         feat = [t for t in tags if t.split(":")[0] in ("jnt", "act", "eq", "tendon", "wrap", "geom") or t in
                 ("fluid", "gravcomp", "mocap", "frictionloss", "pair", "margin")]
@@ -399,26 +452,37 @@ def check_model(R, xml, tags, states, P, x64=True, detail_base=None):
         P.count("fields_compared", len(POS_FIELDS + VEL_FIELDS + ACT_FIELDS + IMPL_FIELDS) + 3 + m.nsensor)
         if nact:
             P.count("states_with_active_contacts")
+            if "capcap" in tags:
+                P.count("capsule_capsule_clipped_segment_states")
         if nrow:
             P.count("states_with_constraint_rows")
         P.note_max("active_contacts", nact)
         P.note_max("nefc", nrow)
-        causes = _known_causes(R, m, dcf, dxf, tags)
+        if not problems:
+            continue
+        P.count("states_with_differences")
+        cf = _Counterfactuals(R, m, mx, st, dx, (dcf, dcs, dxf, dxs), x64, smap, integ, P)
+        causes = _known_causes(R, m, mx, st, dcf, dcs, dxf, dxs, cf)
         seen = set()
         tree = None
         for name, det in problems:
             sig = name
-            if isinstance(det, dict) and "mjx" in det and not name.startswith(("contact", "efc", "sensor_")):
-                # reference-version skew triage (see ASSUMPTIONS): does the tree's own C build side with MJX?
+            if isinstance(det, dict) and "mjx" in det and "tol" in det and not name.startswith(("contact", "efc")):
+                # reference-version skew triage (see ASSUMPTIONS): tree sides with MJX at the field's own tolerance AND
+                # differs from the wheel by more than it
                 if tree is None:
                     tree = _tree_values(xml, st) or False
-                if tree and _is_reference_skew(name, det["mjx"], tree, m, max(tol_s, 1e-6)):
+                    P.count("tree_build_consulted_states" if tree else "tree_build_unavailable_states")
+                verdict = _reference_skew(name, det, tree) if tree else None
+                if verdict is not None:
+                    P.count("tree_build_decisions")
+                    P.count("tree_build_decided[%s]" % verdict)
+                if verdict == "skew":
                     P.count("reference_skew_wheel_vs_tree[%s]" % name.split("[")[0])
                     continue
-            for cause, affected in causes:
-                if affected(name):
-                    sig = cause
-                    break
+            cause = _attribute(name, det, causes, cf, P)
+            if cause is not None:
+                sig = cause
             if sig in seen:
                 continue
             seen.add(sig)
@@ -427,9 +491,8 @@ def check_model(R, xml, tags, states, P, x64=True, detail_base=None):
             P.violation("mjx-differs-from-c-engine:%s" % sig, dd)
 
 
-DOWNSTREAM_OF_SMOOTH_FORCE = ("qfrc_smooth", "qacc_smooth", "qacc", "qfrc_constraint", "efc_force", "step_", "sensor_a", "sensor_f", "sensor_t", "sensor_jointactfrc")
-
-
+# ------------------------------------------------------------------------------------------------------------------
+# reference-version skew triage: the tree's own C build
 _TREE = {}
 
 
@@ -465,82 +528,486 @@ def _tree_values(xml, st):
         return None
 
 
-def _is_reference_skew(name, mjx_value, tree, m, tol):
-    """True iff the tree's C engine reproduces MJX's value for this field (so the wheel is the odd one out)."""
-    if tree is None or mjx_value is None:
-        return False
+def _reference_skew(name, det, tree):
+    """'skew'   : the tree's C engine reproduces MJX's value at the field's own tolerance AND differs from the wheel's value
+                  by more than that tolerance (the wheel is the odd one out: version skew, not judged);
+       'judged' : the tree build was evaluated and does not clear MJX (tree == wheel, or MJX differs from both);
+       None     : the tree build does not expose this field under that name/shape (judged against the wheel)."""
     tf, ts = tree
+    t = float(det["tol"])
     try:
         if name.startswith("step_"):
             ref = ts[name[5:].split("[")[0]]
         elif name.startswith("sensor_"):
-            return False
+            ref = np.asarray(tf["sensordata"], float).ravel()[det["adr"]:det["adr"] + det["dim"]]
         else:
             ref = tf[name]
-        return _relerr(np.asarray(mjx_value, float).ravel(), np.asarray(ref, float).ravel()) <= tol
+        ref = np.asarray(ref, float).ravel()
+        xv = np.asarray(det["mjx"], float).ravel()
+        wv = np.asarray(det["c"], float).ravel()
+        if ref.shape != xv.shape or ref.shape != wv.shape:
+            return None
     except Exception:
+        return None
+    if _relerr(xv, ref) <= t and _relerr(ref, wv) > t:
+        return "skew"
+    return "judged"
+
+
+# ------------------------------------------------------------------------------------------------------------------
+# counterfactual machinery
+def _staged_forward(mj, m, d, hooks=(), sensors=True):
+    """mj_forward as its public stages, with `hooks` run between mj_fwdAcceleration and mj_fwdConstraint (efc_aref is final
+    there). Validated against mj_forward by the caller before any hook is trusted."""
+    mj.mj_fwdPosition(m, d)
+    if sensors:
+        mj.mj_sensorPos(m, d)
+    mj.mj_fwdVelocity(m, d)
+    if sensors:
+        mj.mj_sensorVel(m, d)
+    mj.mj_fwdActuation(m, d)
+    mj.mj_fwdAcceleration(m, d)
+    for h in hooks:
+        h(m, d)
+    mj.mj_fwdConstraint(m, d)
+    if sensors:
+        mj.mj_sensorAcc(m, d)
+
+
+_RK4_A = ((0.5, 0.0, 0.0), (0.0, 0.5, 0.0), (0.0, 0.0, 1.0))
+_RK4_B = (1.0 / 6.0, 1.0 / 3.0, 1.0 / 3.0, 1.0 / 6.0)
+
+
+def _staged_rk4(mj, m, d, hooks):
+    """mj_RungeKutta(N=4) re-enacted on top of _staged_forward (d already holds the staged forward of stage 0)."""
+    import copy
+    h, t0 = float(m.opt.timestep), float(d.time)
+    q0, v0, a0 = d.qpos.copy(), d.qvel.copy(), d.act.copy()
+    X = [v0.copy()]
+    F = [(d.qacc.copy(), d.act_dot.copy())]
+    for i in range(1, 4):
+        dv = sum(_RK4_A[i - 1][j] * X[j] for j in range(i))
+        da = sum(_RK4_A[i - 1][j] * F[j][0] for j in range(i))
+        dact = sum(_RK4_A[i - 1][j] * F[j][1] for j in range(i))
+        q = q0.copy()
+        mj.mj_integratePos(m, q, dv, h)
+        d.qpos[:] = q
+        d.qvel[:] = v0 + h * da
+        if m.na:
+            d.act[:] = a0 + h * dact
+        d.time = t0 + sum(_RK4_A[i - 1][:i]) * h
+        _staged_forward(mj, m, d, hooks, sensors=False)
+        X.append(d.qvel.copy())
+        F.append((d.qacc.copy(), d.act_dot.copy()))
+    dv = sum(_RK4_B[j] * X[j] for j in range(4))
+    da = sum(_RK4_B[j] * F[j][0] for j in range(4))
+    dact = sum(_RK4_B[j] * F[j][1] for j in range(4))
+    d.time = t0
+    d.qpos[:] = q0
+    d.qvel[:] = v0
+    if m.na:
+        d.act[:] = a0
+        d.act_dot[:] = dact
+    d.qacc[:] = da
+    # mj_advance(act_dot, qacc, qvel=dv): mj_Euler without implicit damping advances act/qvel/time identically; qpos is redone
+    m2 = copy.copy(m)
+    m2.opt.disableflags = int(m.opt.disableflags) | int(mj.mjtDisableBit.mjDSBL_EULERDAMP)
+    mj.mj_Euler(m2, d)
+    q = q0.copy()
+    mj.mj_integratePos(m, q, dv, h)
+    d.qpos[:] = q
+
+
+def _dense_qderiv(mj, m, d):
+    D = np.zeros((m.nv, m.nv))
+    src = m if hasattr(m, "D_rownnz") else d
+    mj.mju_sparse2dense(D, d.qDeriv, src.D_rownnz, src.D_rowadr, src.D_colind)
+    return D
+
+
+def _velocity_update_numeric(mj, m, d, delta):
+    """Next state of the Euler / implicitfast integrator recomputed in numpy from C's forward data `d`:
+        qvel+ = qvel + h * (M - h*(D + delta))^-1 (qfrc_smooth + qfrc_constraint)
+    implicitfast: D = C's qDeriv as used by mj_implicit (lower triangle on M's sparsity pattern, mirrored);
+    Euler: D = -diag(dof_damping) when the C engine integrates joint damping implicitly (neither eulerdamp nor damper disabled),
+    else 0. Returns an object with qpos/qvel/act/time, or None when the formula with delta = 0 does not reproduce the C
+    integrator itself to 1e-9 (the formula is only trusted after that validation)."""
+    import types
+    d2 = mj.MjData(m)
+    mj.mj_copyData(d2, m, d)
+    h = float(m.opt.timestep)
+    M = np.zeros((m.nv, m.nv))
+    mj.mj_fullM(m, d, M)
+    if int(m.opt.integrator) == int(mj.mjtIntegrator.mjINT_EULER):
+        mj.mj_Euler(m, d2)
+        dis = int(m.opt.disableflags)
+        damped = not (dis & int(mj.mjtDisableBit.mjDSBL_EULERDAMP)) and not (dis & int(mj.mjtDisableBit.mjDSBL_DAMPER))
+        Dsym = -np.diag(np.array(m.dof_damping)) if damped else np.zeros((m.nv, m.nv))
+    else:
+        mj.mj_implicit(m, d2)
+        D = _dense_qderiv(mj, m, d2)
+        L = np.tril(D) * (M != 0)
+        Dsym = L + L.T - np.diag(np.diag(L))
+    f = np.array(d.qfrc_smooth) + np.array(d.qfrc_constraint)
+
+    def nxt(dl):
+        return np.array(d.qvel) + h * np.linalg.solve(M - h * (Dsym + dl), f)
+    if _relerr(nxt(0.0), d2.qvel) > 1e-9:
+        return None
+    v = nxt(delta)
+    q = np.array(d.qpos)
+    mj.mj_integratePos(m, q, v, h)
+    return types.SimpleNamespace(qpos=q, qvel=v, act=np.array(d2.act), time=float(d2.time))
+
+
+class _Counterfactuals:
+    """Lazy counterfactual re-runs of one state. A cause contributes a `spec` (dict) with any of
+         c_model(m2)           edit a copy of the wheel's MjModel (feature switched off in the C engine)
+         c_hook(m, d)          edit mjData between mj_fwdAcceleration and mj_fwdConstraint of every forward evaluation
+         c_delta  (nv x nv)    add to the velocity-derivative matrix D of C's Euler / implicitfast velocity update
+         mjx_data(dx) -> dx    edit MJX's input data            mjx_model(mx) -> mx    edit MJX's model
+       remaining(specs) -> set of _pkey of the differences that SURVIVE the counterfactual (None if it cannot be run)."""
+
+    def __init__(self, R, m, mx, st, dx, base, x64, smap, integ, P):
+        self.R, self.m, self.mx, self.st, self.dx, self.base = R, m, mx, st, dx, base
+        self.x64, self.smap, self.integ, self.P = x64, smap, integ, P
+        self.cache = {}
+
+    def remaining(self, named_specs):
+        key = tuple(sorted(n for n, _ in named_specs))
+        if key not in self.cache:
+            try:
+                self.cache[key] = self._run([s for _, s in named_specs])
+            except Exception as e:
+                self.P.count("counterfactual_failed[%s]" % type(e).__name__)
+                self.cache[key] = None
+            self.P.count("counterfactual_runs" if self.cache[key] is not None else "counterfactual_unavailable")
+        return self.cache[key]
+
+    def _c_side(self, specs):
+        import copy
+        from .. import mjxrepo
+        mj, m = self.R.mujoco, self.m
+        edits = [s["c_model"] for s in specs if "c_model" in s]
+        hooks = [s["c_hook"] for s in specs if "c_hook" in s]
+        deltas = [s["c_delta"] for s in specs if "c_delta" in s]
+        dcf, dcs = self.base[0], self.base[1]
+        if not (edits or hooks or deltas):
+            return dcf, dcs
+        m2 = m
+        if edits:
+            m2 = copy.copy(m)
+            for e in edits:
+                e(m2)
+        integ = int(m.opt.integrator)
+        I = mj.mjtIntegrator
+
+        def sim(hk, dl):
+            f = mj.MjData(m2)
+            mjxrepo.set_state_dict(m2, f, self.st)
+            _staged_forward(mj, m2, f, hk)
+            s = mj.MjData(m2)
+            mj.mj_copyData(s, m2, f)
+            if integ == int(I.mjINT_RK4):
+                _staged_rk4(mj, m2, s, hk)
+            elif dl is not None:
+                s = _velocity_update_numeric(mj, m2, f, dl)
+            elif integ == int(I.mjINT_EULER):
+                mj.mj_Euler(m2, s)
+            else:
+                mj.mj_implicit(m2, s)
+            return f, s
+        if hooks or deltas:
+            # trust the staged pipeline only if, without hooks, it reproduces mj_forward / mj_step of the same model
+            rf = mj.MjData(m2)
+            mjxrepo.set_state_dict(m2, rf, self.st)
+            mj.mj_forward(m2, rf)
+            rs = mj.MjData(m2)
+            mjxrepo.set_state_dict(m2, rs, self.st)
+            mj.mj_step(m2, rs)
+            f0, s0 = sim([], 0.0 if deltas else None)
+            if s0 is None or max(_relerr(f0.qacc, rf.qacc), _relerr(f0.sensordata, rf.sensordata),
+                                 _relerr(f0.efc_force, rf.efc_force) if rf.nefc == f0.nefc else 1.0,
+                                 _relerr(s0.qpos, rs.qpos), _relerr(s0.qvel, rs.qvel), _relerr(s0.act, rs.act)) > 1e-9:
+                self.P.count("counterfactual_staged_pipeline_not_validated")
+                return None
+            self.P.count("counterfactual_staged_pipeline_validated")
+            f, s = sim(hooks, sum(deltas) if deltas else None)
+            return (f, s) if s is not None else None
+        f = mj.MjData(m2)
+        mjxrepo.set_state_dict(m2, f, self.st)
+        mj.mj_forward(m2, f)
+        s = mj.MjData(m2)
+        mjxrepo.set_state_dict(m2, s, self.st)
+        mj.mj_step(m2, s)
+        return f, s
+
+    def _run(self, specs):
+        R = self.R
+        c = self._c_side(specs)
+        if c is None:
+            return None
+        mx2, dx2 = self.mx, self.dx
+        changed = False
+        for s in specs:
+            if "mjx_model" in s:
+                mx2, changed = s["mjx_model"](mx2), True
+            if "mjx_data" in s:
+                dx2, changed = s["mjx_data"](dx2), True
+        if changed:
+            fs, _ = _fs(R)
+            dxf, dxs = fs(mx2, dx2)
+            R.jax.block_until_ready(dxs.qpos)
+        else:
+            dxf, dxs = self.base[2], self.base[3]
+        probs, _ = _compare_state(R, self.m, mx2, c[0], c[1], dxf, dxs, self.x64, core.Part(), self.smap, self.integ)
+        return {_pkey(n, d) for n, d in probs}
+
+
+def _attribute(name, det, causes, cf, P):
+    """Signature of the known finding whose mechanism is CONFIRMED to produce this difference, else None."""
+    key = _pkey(name, det)
+    inscope = [c for c in causes if c["scope"](name, det)]
+    for c in inscope:
+        if c.get("root") is not None and c["root"](name, det):
+            P.count("attributed_by_structural_test[%s]" % c["sig"])
+            return c["sig"]
+        if c.get("spec") is not None:
+            rem = cf.remaining([(c["sig"], c["spec"])])
+            if rem is not None and key not in rem:
+                P.count("attributed_by_counterfactual[%s]" % c["sig"])
+                return c["sig"]
+    # several known mechanisms active in the same state: neutralise all of them together
+    withspec = [c for c in causes if c.get("spec") is not None]
+    if inscope and len(withspec) >= 2 and any(c.get("spec") is not None for c in inscope):
+        rem = cf.remaining([(c["sig"], c["spec"]) for c in withspec])
+        if rem is not None and key not in rem:
+            c = [c for c in inscope if c.get("spec") is not None][0]
+            P.count("attributed_by_joint_counterfactual[%s]" % c["sig"])
+            return c["sig"]
+    for c in inscope:
+        P.count("in_scope_but_not_confirmed[%s]" % c["sig"])
+    return None
+
+
+def _scope(fields=(), step=(), sensors=(), efc=None):
+    fields, step, sensors = set(fields), set(step), {int(s) for s in sensors}
+
+    def f(name, det):
+        if name in fields:
+            return True
+        if name.startswith("step_"):
+            return name[5:].split("[")[0] in step
+        if name.startswith("sensor_"):
+            return int(det.get("stype", -1)) in sensors
+        if efc is not None and name.startswith("efc"):
+            return bool(efc(name, det))
         return False
+    return f
 
 
-def _acc_sensor_names(mj, m):
-    return {"sensor_" + mj.mjtSensor(m.sensor_type[i]).name.replace("mjSENS_", "").lower()
-            for i in range(m.nsensor) if int(m.sensor_needstage[i]) == 3}
-
-
-def _known_causes(R, m, dcf, dxf, tags):
-    """Mechanism attribution: (signature, predicate over field names) for configurations in which a *specific* documented-
-    in-findings defect of the unchanged tree applies.  A difference is attributed to a cause only if the cause's
-    precondition holds for this model/state and the field is downstream of it; everything else keeps its field name."""
-    mj = R.mujoco
+def _known_causes(R, m, mx, st, dcf, dcs, dxf, dxs, cf):
+    """Known findings that can be ACTIVE in this model/state. Each entry: sig, scope(name, det) (explicit fields, constraint-row
+    kinds and mjtSensor types the mechanism can reach), and a confirmation: root(name, det) = structural test on the
+    differing value itself, and/or spec = counterfactual in which exactly this mechanism is neutralised (see _Counterfactuals).
+    Order matters only when two confirmed mechanisms reach the same field."""
+    mj, jp = R.mujoco, R.jp
+    S, T, D = mj.mjtSensor, mj.mjtConstraint, mj.mjtDisableBit
     out = []
     dis = int(m.opt.disableflags)
-    spring = bool(dis & int(mj.mjtDisableBit.mjDSBL_SPRING))
-    damper = bool(dis & int(mj.mjtDisableBit.mjDSBL_DAMPER))
-    if spring != damper:
-        out.append(("passive-forces-skipped-when-only-one-of-spring-damper-disabled",
-                    lambda f: f in ("qfrc_passive", "qfrc_gravcomp", "qfrc_fluid") or f.startswith(DOWNSTREAM_OF_SMOOTH_FORCE)))
-    if dis & int(mj.mjtDisableBit.mjDSBL_ACTUATION) and m.nu:
-        out.append(("actuator_velocity-not-zeroed-when-actuation-disabled",
-                    lambda f: f in ("actuator_velocity", "sensor_actuatorvel")))
-    if "fluid" in tags:
-        out.append(("qfrc_fluid-field-never-written", lambda f: f == "qfrc_fluid"))
-    if "wrap:sidesite-crossbody" in tags:
-        out.append(("wrap-inside-test-uses-body-local-coordinates-of-sidesite-and-geom",
-                    lambda f: f in ("ten_length", "ten_J", "ten_velocity", "actuator_length", "actuator_moment",
-                                    "actuator_velocity", "actuator_force", "qfrc_actuator", "qfrc_passive", "act_dot", "M")
-                    or f.startswith(DOWNSTREAM_OF_SMOOTH_FORCE) or f.startswith("efc")))
-    if "actearly" in tags and not dis & int(mj.mjtDisableBit.mjDSBL_ACTUATION):
-        out.append(("actuator-actearly-ignored",
-                    lambda f: f in ("actuator_force", "qfrc_actuator") or f.startswith(DOWNSTREAM_OF_SMOOTH_FORCE)))
-    if any(t in tags for t in ("eq:connect", "eq:weld", "eq:weldmocap")) and not dis & int(mj.mjtDisableBit.mjDSBL_EQUALITY) \
-            and not dis & int(mj.mjtDisableBit.mjDSBL_CONSTRAINT):
-        out.append(("connect-weld-reference-acceleration-lacks-Jdot-v-term",
-                    lambda f: f in ("efc_aref", "efc_force", "qfrc_constraint", "qacc") or f.startswith("step_") or f in _acc_sensor_names(mj, m)))
-    for i in range(m.nsensor):
-        nm = mj.mjtSensor(m.sensor_type[i]).name.replace("mjSENS_", "").lower()
-        if nm in ("framelinacc", "frameangacc") and m.sensor_cutoff[i] > 0:
-            out.append(("sensor-cutoff-not-applied-to-framelinacc-frameangacc",
-                        lambda f: f in ("sensor_framelinacc", "sensor_frameangacc")))
-            break
-    if int(m.opt.cone) == int(mj.mjtCone.mjCONE_ELLIPTIC) and (np.any(np.array(m.geom_margin) > 0) or
-                                                             (m.npair and np.any(np.array(m.pair_margin) > 0))):
-        out.append(("elliptic-friction-rows-report-contact-margin-in-efc_pos-and-efc_margin",
-                    lambda f: f in ("efc_pos", "efc_margin")))
+    off = lambda bit: bool(dis & int(bit))
+    ACC_BODY = [S.mjSENS_ACCELEROMETER, S.mjSENS_FORCE, S.mjSENS_TORQUE, S.mjSENS_FRAMELINACC, S.mjSENS_FRAMEANGACC,
+                S.mjSENS_TOUCH]          # acceleration-stage sensors that read cacc / cfrc_int / efc_force
+    ACT_FRC = [S.mjSENS_ACTUATORFRC, S.mjSENS_JOINTACTFRC, S.mjSENS_TENDONACTFRC]
+    allzero = lambda v: bool(np.all(np.asarray(v, float) == 0))
+    tolof = lambda det: float(det.get("tol", 1e-6))
+    any_efc_force = lambda name, det: name == "efc_force"
+
+    # 0. euler(): joint damping integrated implicitly although the damper flag is disabled --------------------------------
+    if int(m.opt.integrator) == int(mj.mjtIntegrator.mjINT_EULER) and off(D.mjDSBL_DAMPER) and not off(D.mjDSBL_EULERDAMP) \
+            and np.any(np.array(m.dof_damping) > 0):
+        out.append({
+            "sig": "euler-integrates-joint-damping-implicitly-although-damper-flag-disabled",
+            "scope": _scope(step=["qpos", "qvel"]),
+            # C's Euler velocity update recomputed with M + h*diag(dof_damping) (what MJX solves) must reproduce MJX
+            "spec": {"c_delta": -np.diag(np.array(m.dof_damping, float))},
+        })
+    # 1. passive(): early return when EITHER spring or damper is disabled -----------------------------------------------
+    if off(D.mjDSBL_SPRING) != off(D.mjDSBL_DAMPER) and allzero(dxf.qfrc_passive) and allzero(dxf.qfrc_gravcomp) \
+            and not (allzero(dcf.qfrc_passive) and allzero(dcf.qfrc_gravcomp)):
+        actgc = np.array(m.jnt_actgravcomp)[np.array(m.dof_jntid)].astype(float) if m.nv else np.zeros(0)
+        comp = np.array(dcf.qfrc_passive) + np.array(dcf.qfrc_gravcomp) * actgc
+        out.append({
+            "sig": "passive-forces-skipped-when-only-one-of-spring-damper-disabled",
+            "scope": _scope(fields=["qfrc_passive", "qfrc_gravcomp", "qfrc_smooth", "qacc_smooth", "qacc", "qfrc_constraint"],
+                            step=["qpos", "qvel"], sensors=ACC_BODY, efc=any_efc_force),
+            # root: MJX's early return leaves exact zeros in both arrays
+            "root": lambda name, det: name in ("qfrc_passive", "qfrc_gravcomp") and allzero(det["mjx"]),
+            # downstream: give MJX the missing generalized force as qfrc_applied; everything must then agree with C
+            "spec": {"mjx_data": lambda dx, comp=comp: dx.replace(qfrc_applied=dx.qfrc_applied + jp.array(comp, dtype=dx.qfrc_applied.dtype))},
+        })
+    # 2. actuation disabled: C zeroes actuator_velocity ------------------------------------------------------------------
+    if off(D.mjDSBL_ACTUATION) and m.nu:
+        out.append({
+            "sig": "actuator_velocity-not-zeroed-when-actuation-disabled",
+            "scope": _scope(fields=["actuator_velocity"], sensors=[S.mjSENS_ACTUATORVEL]),
+            "root": lambda name, det: allzero(det["c"]),
+        })
+    # 3. public field qfrc_fluid never written ---------------------------------------------------------------------------
+    if float(m.opt.density) > 0 or float(m.opt.viscosity) > 0:
+        out.append({
+            "sig": "qfrc_fluid-field-never-written",
+            "scope": _scope(fields=["qfrc_fluid"]),
+            "root": lambda name, det: allzero(det["mjx"]),
+        })
+    # 4. static, body-local inside-test of the side site ----------------------------------------------------------------
+    wrap_geom = np.nonzero(np.isin(np.array(m.wrap_type), [int(mj.mjtWrap.mjWRAP_SPHERE), int(mj.mjtWrap.mjWRAP_CYLINDER)]))[0]
+    static = np.asarray(mx._impl.is_wrap_inside).astype(bool)
+    if len(wrap_geom) and static.shape == (len(wrap_geom),):
+        side = np.round(np.array(m.wrap_prm)[wrap_geom]).astype(int)
+        gid = np.array(m.wrap_objid)[wrap_geom]
+        # C (mju_wrap): side site inside iff |site_xpos[side] - geom_xpos| < radius, evaluated at this state in the world frame
+        truth = np.array([s >= 0 and np.linalg.norm(dcf.site_xpos[s] - dcf.geom_xpos[g]) < m.geom_size[g, 0]
+                          for s, g in zip(side, gid)], bool)
+        if np.any(truth != static):
+            arm = bool(np.any(np.array(m.tendon_armature) > 0)) if hasattr(m, "tendon_armature") else False
+            TEN_ROWS = (int(T.mjCNSTR_FRICTION_TENDON), int(T.mjCNSTR_LIMIT_TENDON))
+
+            def wrap_efc(name, det):
+                if name == "efc_force":
+                    return True
+                return det.get("type") in TEN_ROWS or (det.get("type") == int(T.mjCNSTR_EQUALITY)
+                                                      and det.get("eq_type") == int(mj.mjtEq.mjEQ_TENDON))
+            out.append({
+                "sig": "wrap-inside-test-uses-body-local-coordinates-of-sidesite-and-geom",
+                "scope": _scope(fields=["ten_length", "ten_J", "ten_velocity", "actuator_length", "actuator_moment",
+                                        "actuator_velocity", "actuator_force", "qfrc_actuator", "qfrc_passive", "qfrc_smooth",
+                                        "qacc_smooth", "qacc", "qfrc_constraint", "efc-row-count"] + (["M"] if arm else []),
+                                step=["qpos", "qvel"], efc=wrap_efc,
+                                sensors=[S.mjSENS_TENDONPOS, S.mjSENS_TENDONVEL, S.mjSENS_ACTUATORPOS, S.mjSENS_ACTUATORVEL]
+                                + ACT_FRC + ACC_BODY),
+                # give MJX the flag that the world-frame test yields at this state; everything must then agree with C
+                "spec": {"mjx_model": lambda mx_, truth=truth: mx_.tree_replace({"_impl.is_wrap_inside": truth})},
+            })
+    # 5. actearly ignored -------------------------------------------------------------------------------------------------
+    early = np.array(m.actuator_actearly).astype(bool) & (np.array(m.actuator_dyntype) != int(mj.mjtDyn.mjDYN_NONE)) \
+        if m.nu else np.zeros(0, bool)
+    if m.nu and early.any() and not off(D.mjDSBL_ACTUATION):
+        def no_actearly(m2):
+            m2.actuator_actearly[:] = 0
+        out.append({
+            "sig": "actuator-actearly-ignored",
+            "scope": _scope(fields=["actuator_force", "qfrc_actuator", "qfrc_smooth", "qacc_smooth", "qacc", "qfrc_constraint"],
+                            step=["qpos", "qvel"], sensors=ACT_FRC + ACC_BODY, efc=any_efc_force),
+            # the C engine with actearly switched off must reproduce MJX
+            "spec": {"c_model": no_actearly},
+        })
+    # 6. connect / weld reference acceleration lacks Jdot*v ---------------------------------------------------------------
+    ne = int(dcf.ne)
+    cw_rows = [i for i in range(ne) if int(dcf.efc_type[i]) == int(T.mjCNSTR_EQUALITY)
+               and int(m.eq_type[int(dcf.efc_id[i])]) in (int(mj.mjtEq.mjEQ_CONNECT), int(mj.mjtEq.mjEQ_WELD))]
+    if cw_rows and np.any(np.array(st["qvel"], float) != 0):
+        def aref_without_jdotv(d, i):
+            # mj_referenceConstraint before mj_Jdotv: aref = -B*vel - K*I*(pos - margin), from C's own row quantities
+            K = np.array(d.efc_KBIP).reshape(-1, 4)[i]
+            return float(-K[1] * d.efc_vel[i] - K[0] * K[2] * (d.efc_pos[i] - d.efc_margin[i]))
+
+        def hook(m_, d_):
+            for i in range(int(d_.ne)):
+                if int(d_.efc_type[i]) == int(T.mjCNSTR_EQUALITY) and \
+                        int(m_.eq_type[int(d_.efc_id[i])]) in (int(mj.mjtEq.mjEQ_CONNECT), int(mj.mjtEq.mjEQ_WELD)):
+                    d_.efc_aref[i] = aref_without_jdotv(d_, i)
+
+        def root(name, det):
+            if name != "efc_aref" or det.get("c_row") not in cw_rows:
+                return False
+            ref = aref_without_jdotv(dcf, det["c_row"])
+            return abs(det["mjx"] - ref) <= tolof(det) * max(1.0, abs(ref)) and abs(det["c"] - ref) > tolof(det) * max(1.0, abs(ref))
+        out.append({
+            "sig": "connect-weld-reference-acceleration-lacks-Jdot-v-term",
+            "scope": _scope(fields=["qfrc_constraint", "qacc"], step=["qpos", "qvel"], sensors=ACC_BODY,
+                            efc=lambda name, det: name == "efc_force" or (name == "efc_aref" and det.get("c_row") in cw_rows)),
+            "root": root,
+            # the C engine with the Jdot*v term removed from those rows (staged pipeline) must reproduce MJX
+            "spec": {"c_hook": hook},
+        })
+    # 7. cutoff not applied to framelinacc / frameangacc -----------------------------------------------------------------
+    if any(int(m.sensor_type[i]) in (int(S.mjSENS_FRAMELINACC), int(S.mjSENS_FRAMEANGACC)) and m.sensor_cutoff[i] > 0
+           for i in range(m.nsensor)):
+        def cut_root(name, det):
+            i = det.get("sensor", -1)
+            if i < 0 or int(m.sensor_type[i]) not in (int(S.mjSENS_FRAMELINACC), int(S.mjSENS_FRAMEANGACC)):
+                return False
+            cut = float(m.sensor_cutoff[i])
+            x, c = np.asarray(det["mjx"], float), np.asarray(det["c"], float)
+            # C's value is MJX's value clipped to +-cutoff, and the clip is active
+            return cut > 0 and bool(np.any(np.abs(x) > cut)) and _relerr(np.clip(x, -cut, cut), c) <= tolof(det)
+        out.append({
+            "sig": "sensor-cutoff-not-applied-to-framelinacc-frameangacc",
+            "scope": _scope(sensors=[S.mjSENS_FRAMELINACC, S.mjSENS_FRAMEANGACC]),
+            "root": cut_root,
+        })
+    # 8. elliptic friction rows carry the contact margin in efc_pos / efc_margin -------------------------------------------
+    if int(m.opt.cone) == int(mj.mjtCone.mjCONE_ELLIPTIC):
+        def ell_root(name, det):
+            t = tolof(det)
+            return det.get("type") == int(T.mjCNSTR_CONTACT_ELLIPTIC) and bool(det.get("friction_row")) and det["c"] == 0.0 \
+                and det.get("includemargin", 0.0) > 0 and abs(det["mjx"] - det["includemargin"]) <= t \
+                and abs(det["mjx_pm"] - det["c_pm"]) <= t
+        out.append({
+            "sig": "elliptic-friction-rows-report-contact-margin-in-efc_pos-and-efc_margin",
+            "scope": _scope(efc=lambda name, det: name in ("efc_pos", "efc_margin")),
+            "root": ell_root,
+        })
+    # 9. forward() returns before sensor_acc when there are no constraint rows ---------------------------------------------
     if int(dxf._impl.nefc) == 0:
-        acc = set()
-        for i in range(m.nsensor):
-            if int(m.sensor_needstage[i]) == 3:
-                acc.add("sensor_" + mj.mjtSensor(m.sensor_type[i]).name.replace("mjSENS_", "").lower())
-        out.append(("acc-stage-sensors-skipped-when-model-has-no-constraint-rows", lambda f, acc=acc: f in acc))
-    if int(m.opt.integrator) == int(mj.mjtIntegrator.mjINT_IMPLICITFAST) and m.nu and \
-            not dis & int(mj.mjtDisableBit.mjDSBL_ACTUATION):
-        if np.any(np.array(m.actuator_gaintype) == int(mj.mjtGain.mjGAIN_MUSCLE)):
-            out.append(("implicitfast-derivative-omits-muscle-gain-velocity-term", lambda f: f.startswith("step_")))
-        fl = np.array(m.actuator_forcelimited).astype(bool)
-        if fl.any():
-            fr, af = np.array(m.actuator_forcerange), np.array(dcf.actuator_force)[:m.nu]
-            if np.any(fl & ((af <= fr[:, 0]) | (af >= fr[:, 1]))):
-                out.append(("implicitfast-derivative-ignores-actuator-force-clamp", lambda f: f.startswith("step_")))
+        acc_types = {int(m.sensor_type[i]) for i in range(m.nsensor) if int(m.sensor_needstage[i]) == int(mj.mjtStage.mjSTAGE_ACC)}
+        out.append({
+            "sig": "acc-stage-sensors-skipped-when-model-has-no-constraint-rows",
+            "scope": _scope(sensors=acc_types),
+            "root": lambda name, det: det.get("stage") == int(mj.mjtStage.mjSTAGE_ACC) and det.get("nefc_mjx") == 0
+            and allzero(det["mjx"]),
+        })
+    # 10/11. implicitfast: d(actuator force)/d(qvel) ------------------------------------------------------------------------
+    if int(m.opt.integrator) == int(mj.mjtIntegrator.mjINT_IMPLICITFAST) and m.nu and not off(D.mjDSBL_ACTUATION):
+        mom = np.zeros((m.nu, m.nv))
+        mj.mju_sparse2dense(mom, dcf.actuator_moment, dcf.moment_rownnz, dcf.moment_rowadr, dcf.moment_colind)
+        d_muscle, d_clamp = np.zeros((m.nv, m.nv)), np.zeros((m.nv, m.nv))
+        for i in range(m.nu):
+            aadr = int(m.actuator_actadr[i])
+            ca = float(dcf.act[aadr + int(m.actuator_actnum[i]) - 1]) if aadr >= 0 and int(m.actuator_dyntype[i]) != int(mj.mjtDyn.mjDYN_NONE) \
+                else float(dcf.ctrl[i])
+            force = float(dcf.actuator_force[i])
+            lo, hi = m.actuator_forcerange[i]
+            clamped = bool(m.actuator_forcelimited[i]) and (force <= lo or force >= hi)
+            affine = (float(m.actuator_biasprm[i, 2]) if int(m.actuator_biastype[i]) == int(mj.mjtBias.mjBIAS_AFFINE) else 0.0) + \
+                (float(m.actuator_gainprm[i, 2]) * ca if int(m.actuator_gaintype[i]) == int(mj.mjtGain.mjGAIN_AFFINE) else 0.0)
+            if clamped and affine != 0.0:
+                # C drops the whole actuator from qDeriv, MJX keeps its affine velocity terms
+                d_clamp += affine * np.outer(mom[i], mom[i])
+            elif not clamped and int(m.actuator_gaintype[i]) == int(mj.mjtGain.mjGAIN_MUSCLE):
+                ln, vl = float(dcf.actuator_length[i]), float(dcf.actuator_velocity[i])
+                hh = 1e-6 * max(1.0, abs(vl))
+                g = [mj.mju_muscleGain(ln, v, np.array(m.actuator_lengthrange[i]), float(m.actuator_acc0[i]),
+                                       np.array(m.actuator_gainprm[i][:9])) for v in (vl - hh, vl + hh)]
+                gv = (g[1] - g[0]) / (2 * hh) * ca
+                if gv != 0.0:
+                    # C has the muscle force-velocity slope in qDeriv, MJX has no muscle term at all
+                    d_muscle -= gv * np.outer(mom[i], mom[i])
+        if np.any(d_muscle != 0):
+            out.append({
+                "sig": "implicitfast-derivative-omits-muscle-gain-velocity-term",
+                "scope": _scope(step=["qpos", "qvel"]),
+                # C's implicitfast update recomputed with exactly that term removed from qDeriv must reproduce MJX
+                "spec": {"c_delta": d_muscle},
+            })
+        if np.any(d_clamp != 0):
+            out.append({
+                "sig": "implicitfast-derivative-ignores-actuator-force-clamp",
+                "scope": _scope(step=["qpos", "qvel"]),
+                # C's implicitfast update recomputed with the clamped actuators' affine terms put back must reproduce MJX
+                "spec": {"c_delta": d_clamp},
+            })
     return out
 
 
@@ -551,6 +1018,10 @@ def worker(case):
     rng = np.random.Generator(np.random.PCG64(case["key"]))
     if "xml" in case:
         xml, tags, states = case["xml"], case["tags"], case["states"]
+    elif case["profile"] == "capcap":
+        xml, tags = mjxrepo.gen_capcap(rng, integrator=case.get("integrator"))
+        m = R.mujoco.MjModel.from_xml_string(xml)
+        states = mjxrepo.capcap_states(R, rng, m, R.mujoco.MjData(m), case["nstates"])
     else:
         xml, tags = mjxrepo.gen_model(rng, case["profile"], small=case.get("small", False),
                                       integrator=case.get("integrator"))
@@ -579,6 +1050,11 @@ def _cases(ctx):
         cases.append({"key": int(core.stable_hash("C43", ctx.seed, i)), "profile": prof, "x64": (i % 8) != 7,
                       "nstates": ctx.pick(2, 3), "small": ctx.quick or i % 2 == 0,
                       "integrator": "RK4" if i % 10 == 9 else (None if not ctx.quick else ["Euler", "implicitfast"][i % 2])})
+    # capsule-capsule pairs in clipped segment-segment configurations (the narrow phase's clip-then-refine branch): two pairs
+    # per state; one model = one XLA compile
+    for i in range(ctx.pick(2, 8)):
+        cases.append({"key": int(core.stable_hash("C43capcap", ctx.seed, i)), "profile": "capcap", "x64": True,
+                      "nstates": ctx.pick(4, 8), "integrator": ["Euler", "implicitfast"][i % 2]})
     return cases
 
 
@@ -600,6 +1076,13 @@ def run(ctx):
         ctx.inconclusive("too many worker failures (%d of %d)" % (ctx.counters["worker_failures"], len(cases)))
     ctx.extra["skew_dropped_fields"] = SKEW
     ctx.extra["reference"] = "mujoco wheel C engine (see ASSUMPTIONS)"
+    c = ctx.counters
+    ctx.extra["decided_by_tree_build"] = {
+        "differences_evaluated_on_tree_build": int(c.get("tree_build_decisions", 0)),
+        "not_judged_as_version_skew(tree==mjx at field tol AND tree!=wheel)": int(c.get("tree_build_decided[skew]", 0)),
+        "judged_against_wheel(tree==wheel or mjx differs from both)": int(c.get("tree_build_decided[judged]", 0)),
+        "states_where_tree_build_was_consulted": int(c.get("tree_build_consulted_states", 0)),
+        "states_where_tree_build_was_unavailable": int(c.get("tree_build_unavailable_states", 0))}
 
 
 def replay(ctx, path):
